@@ -497,6 +497,15 @@ func c19Dates(w *W, r *rand.Rand, idx int) {
 			w.Inc("alias_" + a)
 			encode(fmt.Sprintf("(%s \"%s\" \"01/02/2006\")", a, us), dateOnly.unix(), "US layout "+us)
 			w.Inc("date_same_instant_pairs")
+			// layouts edged by white space (a log prefix, a line read with its line break): the white space is part of
+			// the layout - the text must carry it
+			if t.s%4 == 0 {
+				encode(fmt.Sprintf("(%s \"\t%s\" \"\t2006-01-02\")", a, dtxt), dateOnly.unix(), "tab-prefixed layout")
+				encode(fmt.Sprintf("(%s \"%s\n\" \"2006-01-02\n\")", a, dtxt), dateOnly.unix(), "layout ending in a line break")
+				c19ExpectErr(w, fmt.Sprintf("(%s \"%s\" \"\t2006-01-02\")", a, dtxt), r, "date_layout_whitespace_rejections", "a text without the tab its layout starts with")
+				c19ExpectErr(w, fmt.Sprintf("(%s \"%s\" \"2006-01-02\n\")", a, dtxt), r, "date_layout_whitespace_rejections", "a text without the line break its layout ends with")
+				w.Inc("date_layouts_edged_by_whitespace")
+			}
 			if t.d <= 12 {
 				// the same text read day-first is another day
 				swapped := instant{t.y, t.d, t.mo, 0, 0, 0}
